@@ -12,7 +12,8 @@ method other than OPTIONS, the documented pass-through) the response carries no 
 
 "Matches" is `httpserver.Path.Matches`, the only definition of a path scope the configuration
 language has.  The verdict class names the route of a disclosure (direct, rewritten, index,
-sibling, archive) so that known findings can be told apart from new ones.
+sibling, archive) and the kind of scope that covers the disclosed file (dir, file, prefix), so
+that known findings can be told apart from new ones.
 -/
 namespace Casket.ChainSpec
 open Casket.Path Casket.FS Casket.FileServe Casket.Chain
@@ -48,6 +49,34 @@ def route (fs : FS) (cs : ChainSite) (target : Bytes) (r : Resp) : String :=
     else "rewritten"
   | _ => "none"
 
+/-- how a covering path relates to a file's canonical URL: `dir` — a directory above the file
+(or everything); `file` — exactly the file's own URL; `prefix` — only a partial name -/
+def scopeOf (b c : Bytes) : String :=
+  if b = [] ∨ clean b = [slash] then "dir"
+  else if hasPrefix (toLower c) (toLower (clean b) ++ [slash]) then "dir"
+  else if toLower c = toLower (clean b) then "file"
+  else "prefix"
+
+def bestScope (scopes : List String) : String :=
+  if scopes.contains "dir" then "dir" else if scopes.contains "file" then "file" else "prefix"
+
+/-- scope of the internal paths covering the first offending inode -/
+def internalScope (fs : FS) (cs : ChainSite) (inos : List Nat) : String :=
+  match inos.find? (internalIno fs cs) with
+  | none => "none"
+  | some ino =>
+    bestScope ((fs.filter fun e => decide (e.ino = ino) && fileOfSite cs.site e).flatMap fun e =>
+      (cs.internal.filter (pathMatches (canonURL cs.site e))).map fun b => scopeOf b (canonURL cs.site e))
+
+/-- scope of the basicauth resources covering the first offending inode -/
+def authScope (fs : FS) (cs : ChainSite) (creds : Option (Bytes × Bytes)) (inos : List Nat) : String :=
+  match inos.find? (protectedIno fs cs creds) with
+  | none => "none"
+  | some ino =>
+    bestScope ((fs.filter fun e => decide (e.ino = ino) && fileOfSite cs.site e).flatMap fun e =>
+      (cs.auth.filter fun r => ruleCovers r (canonURL cs.site e)).flatMap fun r =>
+        (r.resources.filter (pathMatches (canonURL cs.site e))).map fun b => scopeOf b (canonURL cs.site e))
+
 def verdict (fs : FS) (cs : ChainSite) (r : CReq) (obs : CResp) : String :=
   if r.method = FileServe.mOPTIONS then "ok"
   else match obs with
@@ -62,9 +91,9 @@ def verdict (fs : FS) (cs : ChainSite) (r : CReq) (obs : CResp) : String :=
     | .served resp =>
       let inos := contentInos resp
       if inos.any (internalIno fs cs) then
-        "bad:internal-" ++ route fs cs r.target resp ++ ":content of a file under an internal path"
+        "bad:internal-" ++ route fs cs r.target resp ++ "-" ++ internalScope fs cs inos ++ ":content of a file under an internal path"
       else if inos.any (protectedIno fs cs r.creds) then
-        "bad:disclosure-" ++ route fs cs r.target resp ++ ":content of a basicauth-protected file without valid credentials"
+        "bad:disclosure-" ++ route fs cs r.target resp ++ "-" ++ authScope fs cs r.creds inos ++ ":content of a basicauth-protected file without valid credentials"
       else "ok"
 
 end Casket.ChainSpec
